@@ -37,6 +37,7 @@ var pruneAmbient = [][]string{
 	{"diff.srcprefix=x/", "diff.dstprefix=y/"},
 	{"diff.suppressblankempty=true"},
 	{"log.date=relative"},
+	{"log.showroot=false"},
 }
 
 func pruneDims(idx int) (attr int, amb int) {
@@ -87,7 +88,7 @@ func replayPrune(c *core.Ctx, lfsBin string, b *behaviour, idx int) (*core.Viola
 				return nil, err
 			}
 		case "stash":
-			if err := w.Stash(s.str("p"), s.str("oid")); err != nil {
+			if err := w.Stash(s.str("p"), s.str("oid"), s.str("kind")); err != nil {
 				return nil, err
 			}
 		case "switch":
